@@ -118,8 +118,12 @@ const CB: Command = Command::Position(-5.0);
 /// per-terminal option of a round: 0 nothing; 1 A newest (distinct per terminal); 2 B newest;
 /// 3 A at the round's shared time (ties); 4 B older than the previous round
 pub const NOPT: usize = 5;
+/// base time of round 0; the default makes the rounds cross zero; the "large" pass uses 1.5e9 ns,
+/// where consecutive timestamps differ by less than one f32 ulp of their magnitude (a comparison
+/// done in f32 seconds instead of i64 nanoseconds would see them as equal)
+pub static TIME_BASE: std::sync::atomic::AtomicI64 = std::sync::atomic::AtomicI64::new(-25);
 fn opt_time(round: usize, term: usize, opt: usize) -> i64 {
-    let base = -25 + 10 * round as i64;
+    let base = TIME_BASE.load(std::sync::atomic::Ordering::Relaxed) + 10 * round as i64;
     match opt {
         1 | 2 | 5 => base + 1 + term as i64,
         3 | 6 => base,
@@ -543,6 +547,84 @@ fn explore_sparse(e: &mut Eng, kind: Kind, k: usize, mode: Mode, time_only: bool
     }
 }
 
+/// Mixed-magnitude states: per component one of {large and consistent with the constraint, small
+/// and inconsistent, zero}; a projection must treat the three components independently.
+fn mixed_magnitudes(e: &mut Eng) {
+    let mut kinds = vec![Kind::Invert, Kind::Axle(2)];
+    kinds.extend(gear_kinds());
+    for kind in kinds {
+        let f: f32 = match kind {
+            Kind::Invert => -1.0,
+            Kind::Gear(r) | Kind::GearQ(r) => r,
+            _ => 1.0,
+        };
+        for code in 0..27usize {
+            let mut a = [0.0f32; 3];
+            let mut b = [0.0f32; 3];
+            for j in 0..3 {
+                match (code / [1, 3, 9][j]) % 3 {
+                    0 => {
+                        a[j] = 4.0e6;
+                        b[j] = f * 4.0e6;
+                    }
+                    1 => {
+                        a[j] = 1.0;
+                        b[j] = 4.0;
+                    }
+                    _ => {}
+                }
+            }
+            for mask in 0..4u32 {
+                e.executions += 1;
+                e.states += 1;
+                e.transitions += 1;
+                e.checks += 1;
+                if code % 3 != (code / 3) % 3 || code % 3 != (code / 9) % 3 {
+                    e.nontrivial += 1;
+                }
+                let (sa, sb) = (State::new_raw(a[0], a[1], a[2]), State::new_raw(b[0], b[1], b[2]));
+                let r = guard(|| {
+                    let xs: Vec<Term> = (0..2).map(|_| Terminal::new()).collect();
+                    let mut dev = make_dev(kind);
+                    for i in 0..2 {
+                        if mask >> i & 1 == 1 {
+                            connect(dev.term(i), &xs[i]);
+                        }
+                    }
+                    let t0: &Term = if mask & 1 == 1 { &xs[0] } else { dev.term(0) };
+                    let t1: &Term = if mask & 2 == 2 { &xs[1] } else { dev.term(1) };
+                    t0.borrow_mut().set(Datum::new(Time(5), sa)).unwrap();
+                    t1.borrow_mut().set(Datum::new(Time(6), sb)).unwrap();
+                    let reads = vec![read_s(dev.term(0)), read_s(dev.term(1))];
+                    dev.upd().unwrap();
+                    (reads, vec![own_s(dev.term(0)), own_s(dev.term(1))])
+                });
+                let (reads, own) = match r {
+                    Ok(x) => x,
+                    Err(m) => {
+                        e.violation(&format!("device:{}:panic", kind.name()), 1, || format!("{:?} states {:?} / {:?}: {}", kind, sa, sb, m));
+                        continue;
+                    }
+                };
+                e.outcome(h64(&(format!("{:?}", kind), code, mask, &own)));
+                let want = project(kind, &reads);
+                for i in 0..2 {
+                    if let Want::Val(t, v) = want[i] {
+                        let got = own[i];
+                        if !(got.is_some() && got.time == t && (0..3).all(|j| v[j].agrees(got.f(j), 8.0))) {
+                            e.violation(&format!("device:{}:state:projection", kind.name()), 1, || {
+                                format!("{:?} mask {:#b}: side 1 reads {:?}, side 2 reads {:?}; terminal {} own slot is {} but the per-component least-squares projection is [{}, {}, {}]", kind, mask, sa, sb, i, got.show(), v[0].show(), v[1].show(), v[2].show())
+                            });
+                            break;
+                        }
+                    }
+                }
+            }
+        }
+    }
+    e.sample(|| "Gear(2): side 1 (4e6, 1, 0), side 2 (8e6, 4, 0): positions already consistent, velocities (1,4) must still be projected to (1.8, 3.6)".to_string());
+}
+
 fn gear_kinds() -> Vec<Kind> {
     vec![Kind::Gear(1.0), Kind::Gear(-2.0), Kind::Gear(0.5), Kind::Gear(100.0), Kind::Gear(-0.01), Kind::GearQ(-2.0)]
 }
@@ -606,6 +688,14 @@ fn forward_factor(k: Kind) -> f64 {
 }
 /// Build a chain, issue one command per round at the left (0) or right (1) end, update the
 /// devices in order from the issuing end, and read every terminal.
+fn chain_time(k: usize) -> i64 {
+    let b = TIME_BASE.load(std::sync::atomic::Ordering::Relaxed);
+    if b < 0 {
+        -30 + 10 * k as i64
+    } else {
+        b + 3 * k as i64
+    }
+}
 fn run_chain(kinds: &[Kind], ends: &[usize]) -> Vec<(Obs, Obs, Vec<Obs>)> {
     let xl: Term = Terminal::new();
     let xr: Term = Terminal::new();
@@ -618,7 +708,7 @@ fn run_chain(kinds: &[Kind], ends: &[usize]) -> Vec<(Obs, Obs, Vec<Obs>)> {
     connect(devs[m - 1].term(1), &xr);
     let mut out = Vec::new();
     for (k, &end) in ends.iter().enumerate() {
-        let t = Time(-30 + 10 * k as i64);
+        let t = Time(chain_time(k));
         let cmd = if k % 2 == 0 { Command::Velocity(3.0 + k as f32) } else { Command::Position(-(1.0 + k as f32)) };
         if end == 0 {
             xl.borrow_mut().set(Datum::new(t, cmd)).unwrap();
@@ -674,7 +764,7 @@ fn chains(e: &mut Eng, max_len: usize, rounds: usize, budget: Budget) {
             let total: f64 = kinds.iter().map(|&k| forward_factor(k)).product();
             for (k, (l, rr, inner)) in r.iter().enumerate() {
                 e.checks += 1;
-                let t = -30 + 10 * k as i64;
+                let t = chain_time(k);
                 let (kindcode, v) = if k % 2 == 0 { (2u32, 3.0 + k as f64) } else { (1u32, -(1.0 + k as f64)) };
                 let (want_l, want_r) = if ends[k] == 0 { (v, v * total) } else { (v / total, v) };
                 let okc = |o: &Obs, want: f64| o.is_some() && o.time == t && o.bits[1] == kindcode && o.f(0) as f64 == want;
@@ -750,6 +840,17 @@ fn state_engines(ctx: &Ctx, time_only: bool, tag: &str) -> Vec<Eng> {
             explore_sparse(&mut e2, Kind::Diff(m), 2, Mode::State, time_only, budget);
         }
     }
+    // second time base: large timestamps a few ns apart
+    TIME_BASE.store(1_500_000_000, std::sync::atomic::Ordering::SeqCst);
+    for &k in &kinds {
+        explore(&mut e1, k, 2, Mode::State, time_only, budget);
+    }
+    explore(&mut e2, Kind::Axle(3), 1, Mode::State, time_only, budget);
+    for m in 0..4u8 {
+        explore(&mut e2, Kind::Diff(m), 1, Mode::State, time_only, budget);
+    }
+    TIME_BASE.store(-25, std::sync::atomic::Ordering::SeqCst);
+    e1.notes.push("a second pass (depth 2) uses round base 1.5e9 ns: timestamps a few ns apart at a magnitude where f32 seconds cannot tell them apart".into());
     e2.bounds = format!("3-terminal devices: depth {} (125^{} round sequences x 8 connection subsets); axles N=4: depth {}, N=5,6: depth 1 (5^N options x 2^N subsets)", d3, d3, if deep { 2 } else { 1 });
     vec![e1, e2]
 }
@@ -788,7 +889,15 @@ fn command_engines(ctx: &Ctx, time_only: bool, tag: &str) -> Vec<Eng> {
     for m in 0..4u8 {
         explore(&mut e1, Kind::Diff(m), d3, Mode::Command, time_only, budget);
     }
-    e1.bounds = format!("2-terminal devices depth {}, 3-terminal depth {}, axles 4..6 shallower; plus 8-round sequences with few non-empty rounds", d2, d3);
+    TIME_BASE.store(1_500_000_000, std::sync::atomic::Ordering::SeqCst);
+    for &k in &kinds {
+        explore(&mut e1, k, 2, Mode::Command, time_only, budget);
+    }
+    for n in 2..=4usize {
+        explore(&mut e1, Kind::Axle(n), if n == 2 { 2 } else { 1 }, Mode::Command, time_only, budget);
+    }
+    TIME_BASE.store(-25, std::sync::atomic::Ordering::SeqCst);
+    e1.bounds = format!("2-terminal devices depth {}, 3-terminal depth {}, axles 4..6 shallower; plus 8-round sequences with few non-empty rounds; plus a depth-2 pass with round base 1.5e9 ns (timestamps a few ns apart, indistinguishable in f32 seconds)", d2, d3);
     vec![e1]
 }
 
@@ -802,6 +911,13 @@ pub fn run(ctx: &Ctx, commands: bool) -> Vec<Eng> {
         );
         tooth_lists(&mut e3);
         v.push(e3);
+        let mut e4 = Eng::new(
+            "c08-mixed-magnitudes",
+            "2-terminal devices and Axle<2>: states whose three components independently are {large (4e6) and already consistent with the constraint, small and inconsistent (1 vs 4), zero} (27 combinations) x 4 connection subsets, one update: every component must be projected on its own; non-trivial = components of different classes",
+            "8 devices x 27 x 4",
+        );
+        mixed_magnitudes(&mut e4);
+        v.push(e4);
         v
     } else {
         let mut v = command_engines(ctx, false, "c13");
@@ -813,6 +929,10 @@ pub fn run(ctx: &Ctx, commands: bool) -> Vec<Eng> {
             &format!("L={} ({} chains) x 2^{} issuing-end sequences", ml, (1..=ml).map(|l| ipow(4, l)).sum::<u64>(), rounds),
         );
         chains(&mut e2, ml, rounds, budget);
+        TIME_BASE.store(1_500_000_000, std::sync::atomic::Ordering::SeqCst);
+        chains(&mut e2, ml.min(3), rounds.min(5), budget);
+        TIME_BASE.store(-25, std::sync::atomic::Ordering::SeqCst);
+        e2.notes.push("chains of up to 3 devices x 2^5 sequences are repeated with command times 1.5e9 + 3k ns".into());
         v.push(e2);
         v
     }
